@@ -22,10 +22,12 @@ OBLIGATIONS = [
     (P + "lru_move_to_front", "every operation puts the entry it uses at the LRU front and keeps the order of all others"),
     (P + "lru_is_recency_order", "a used after b's last store/fetch => a stands before b in lru whenever both are held"),
     (P + "stats_match_history", "stats = (number of held keys, total number of entry-trigger links) after every history"),
+    (P + "matches_reference", "no memory pressure: after every history the model answers every operation (fetch results, stats counts) exactly as the reference cache written from the property text (expired earliest-deadline first, else LRU)"),
     (P + "buddy_init_normal", "buddy allocator: the constructed arena is in coalesced normal form"),
     (P + "buddy_step_normal", "buddy allocator: malloc and free keep the normal form (no two free buddies side by side), whichever block is chosen"),
     (P + "buddy_used_after_alloc", "buddy allocator: malloc adds exactly its block to the blocks in use"),
     (P + "buddy_used_after_free", "buddy allocator: free removes exactly the freed block"),
+    (P + "buddy_address_is_sibling", "get_buddy's generated expression p_len xor p_ptr is the other half of the enclosing block (the sibling of the tree model)"),
     (P + "malloc_order_ge_min", "buddy allocator: every block malloc hands out has order >= minBits (room for struct page); needs the clamp in malloc (defect fixed)"),
     (P + "malloc_zero_counterexample", "without the clamp malloc(0) gets an order-4 block, smaller than struct page (the defect as found)"),
     (P + "free_all_restores", "buddy allocator: after any malloc/free sequence with no block left in use the arena equals the freshly constructed one (fill, empty, refill indefinitely)"),
